@@ -83,6 +83,46 @@ def body_hash(relpath, node):
     return hashlib.sha256(d.encode()).hexdigest()[:16]
 
 
+def alpha_form(node):
+    """(hash, local names in canonical order) of the function with its local variables renamed to v0, v1, ... in order of
+    first occurrence: two functions with the same hash differ only by a consistent renaming of locals (parameters, attributes,
+    globals and keywords keep their names).  Used to let a contract written against the committed baseline follow a renamed
+    local: a harmless edit."""
+    n = strip_doc(node)
+    params = set()
+    a = n.args
+    for x in a.posonlyargs + a.args + a.kwonlyargs + ([a.vararg] if a.vararg else []) + ([a.kwarg] if a.kwarg else []):
+        params.add(x.arg)
+    local = set()
+    for sub in ast.walk(n):
+        if isinstance(sub, ast.Name) and isinstance(sub.ctx, (ast.Store, ast.Del)) and sub.id not in params:
+            local.add(sub.id)
+        elif isinstance(sub, ast.ExceptHandler) and sub.name:
+            local.add(sub.name)
+        elif isinstance(sub, (ast.Global, ast.Nonlocal)):
+            for g in sub.names:
+                local.discard(g)
+    order = []
+
+    class V(ast.NodeTransformer):
+        def visit_Name(self, x):
+            if x.id in local:
+                if x.id not in order:
+                    order.append(x.id)
+                x.id = 'v%d' % order.index(x.id)
+            return x
+
+        def visit_ExceptHandler(self, x):
+            self.generic_visit(x)
+            if x.name in local:
+                if x.name not in order:
+                    order.append(x.name)
+                x.name = 'v%d' % order.index(x.name)
+            return x
+    V().visit(n)
+    return hashlib.sha256(ast.dump(n, include_attributes=False).encode()).hexdigest()[:16], order
+
+
 def strip_doc(node):
     import copy
     n = copy.deepcopy(node)
